@@ -172,7 +172,17 @@ def base_drift(ctx):
     return -0.01 * ctx.t
 
 
-BASES = {"drift": base_drift, "bigpeak": base_bigpeak, "zero": base_zero, "neg": base_neg, "alt": base_alt, "peak": base_peak, "negpeak": base_negpeak,
+def base_off8(ctx):
+    # ordinary rewards carried on a large common offset (a shifted objective)
+    return 1e8 + base_twopeak(ctx)
+
+
+def base_off12(ctx):
+    # distinct rewards whose spread (1..100) is tiny relative to their size
+    return 1e12 + 100.0 * base_twopeak(ctx)
+
+
+BASES = {"off8": base_off8, "off12": base_off12, "drift": base_drift, "bigpeak": base_bigpeak, "zero": base_zero, "neg": base_neg, "alt": base_alt, "peak": base_peak, "negpeak": base_negpeak,
          "twopeak": base_twopeak}
 
 
